@@ -211,48 +211,90 @@ theorem ErrFacts.cycle {fm : FileMap} {p : Bytes} (c : List (Kind × Bytes)) (h 
 
 /-! ### `checkRefs` -/
 
-theorem checkRefs_ok (refs : List Ref) (h : checkRefs refs = .ok ()) :
+theorem vtp_mainPkg : validTemplatePath mainPkg = .ok true := by rfl
+
+/-- a guard never faults -/
+theorem guardCheck_eq (g : Guard) (p : Bytes) : ∃ b, guardCheck g p = .ok b := by
+  cases g
+  · exact ⟨true, rfl⟩
+  · exact ⟨vtpSpec p, by simp only [guardCheck]; rw [validTemplatePath_eq]⟩
+  · simp only [guardCheck]
+    split
+    · exact ⟨true, rfl⟩
+    · exact ⟨vtpSpec p, by rw [validTemplatePath_eq]⟩
+
+/-- what passes a guard other than `none` is a valid template path -/
+theorem guardCheck_ok {g : Guard} (hg : g ≠ .none) {p : Bytes} (h : guardCheck g p = .ok true) :
+    validTemplatePath p = .ok true := by
+  cases g
+  · exact absurd rfl hg
+  · exact h
+  · simp only [guardCheck] at h
+    split at h
+    · rename_i hm
+      have : p = mainPkg := by simpa using hm
+      rw [this]; exact vtp_mainPkg
+    · exact h
+
+/-- a valid template path passes every guard of the model -/
+theorem guardCheck_of_valid (g : Guard) {p : Bytes} (h : validTemplatePath p = .ok true) :
+    guardCheck g p = .ok true := by
+  cases g
+  · rfl
+  · exact h
+  · simp only [guardCheck]
+    split
+    · rfl
+    · exact h
+
+theorem checkRefs_ok {tbl : SiteTable} (htbl : Guarded tbl) (refs : List Ref)
+    (h : checkRefs tbl refs = .ok ()) :
     ∀ r ∈ refs, validTemplatePath r.path = .ok true := by
   induction refs with
   | nil => intro r hr; simp at hr
   | cons x xs ih =>
     intro r hr
     unfold checkRefs at h
-    rw [validTemplatePath_eq] at h
-    cases hv : vtpSpec x.path with
-    | false => rw [hv] at h; simp at h
+    obtain ⟨b, hb⟩ := guardCheck_eq (tbl x.site) x.path
+    rw [hb] at h
+    cases b with
+    | false => simp at h
     | true =>
-      rw [hv] at h
       simp only at h
       simp only [List.mem_cons] at hr
       rcases hr with rfl | hr
-      · rw [validTemplatePath_eq, hv]
+      · exact guardCheck_ok (htbl _) hb
       · exact ih h r hr
 
-theorem checkRefs_of_valid (refs : List Ref)
-    (h : ∀ r ∈ refs, validTemplatePath r.path = .ok true) : checkRefs refs = .ok () := by
+theorem checkRefs_of_valid (tbl : SiteTable) (refs : List Ref)
+    (h : ∀ r ∈ refs, validTemplatePath r.path = .ok true) : checkRefs tbl refs = .ok () := by
   induction refs with
   | nil => rfl
   | cons x xs ih =>
     unfold checkRefs
-    rw [h x (by simp)]
+    rw [guardCheck_of_valid _ (h x (by simp))]
     exact ih (fun r hr => h r (List.mem_cons_of_mem _ hr))
 
-theorem checkRefs_error (refs : List Ref) (e : Err) (h : checkRefs refs = .error e) :
+theorem checkRefs_error (tbl : SiteTable) (refs : List Ref) (e : Err)
+    (h : checkRefs tbl refs = .error e) :
     ∃ k, e = .syntax (.invalidRefPath k) := by
   induction refs with
   | nil => simp [checkRefs] at h
   | cons x xs ih =>
     unfold checkRefs at h
-    rw [validTemplatePath_eq] at h
-    cases hv : vtpSpec x.path with
+    obtain ⟨b, hb⟩ := guardCheck_eq (tbl x.site) x.path
+    rw [hb] at h
+    cases b with
     | false =>
-      rw [hv] at h
       simp only [Except.error.injEq] at h
       exact ⟨x.kind, h.symm⟩
-    | true =>
-      rw [hv] at h
-      exact ih h
+    | true => exact ih h
+
+/-- with a table that guards every site the check is the plain `ValidTemplatePath` check of
+every reference, whatever the sites: the first reference with an invalid path is the error -/
+theorem checkRefs_guarded_iff {tbl : SiteTable} (htbl : Guarded tbl) (refs : List Ref) :
+    checkRefs tbl refs = .ok () ↔ ∀ r ∈ refs, validTemplatePath r.path = .ok true :=
+  ⟨checkRefs_ok htbl refs, checkRefs_of_valid tbl refs⟩
 
 theorem cacheCheck_error (c k : Kind) (e : Err) (h : cacheCheck c k = .error e) :
     ∃ s, e = .syntax s := by
@@ -268,7 +310,7 @@ theorem decorate_cases (k : Kind) (rp : Bytes) (e : Err) :
   cases e <;> simp [decorate]
 
 section
-variable {fm : FileMap} {P : Bytes → Prop}
+variable {fm : FileMap} {P : Bytes → Prop} {tbl : SiteTable}
 
 /-- what one iteration of `expand` guarantees -/
 structure StepPost (fm : FileMap) (P : Bytes → Prop) (paths : List Bytes) (parent : Bytes)
@@ -544,36 +586,36 @@ theorem StI.pop {paths trees opens} {name : Bytes} {k : Kind}
 
 /-- `parseSource` of an existing file just opened, given the specification of the recursive
 calls -/
-theorem parseSourceWith_post {pnfAt : List Bytes → St → Ref → Res} {paths : List Bytes}
+theorem parseSourceWith_post (htbl : Guarded tbl) {pnfAt : List Bytes → St → Ref → Res} {paths : List Bytes}
     {name : Bytes} {refs : List Ref} (hrefs : fm.lookup name = some refs)
     (hpnf : PnfSpec fm P (name :: paths) name (pnfAt (name :: paths)))
     {st : St} (hst : StI fm P (name :: paths) st.trees st.opens)
     {st' : St} {res : Except Err Unit}
-    (h : parseSourceWith pnfAt paths st name refs = (st', res)) :
+    (h : parseSourceWith tbl pnfAt paths st name refs = (st', res)) :
     ExpandPost fm P (name :: paths) name st refs st' res := by
   unfold parseSourceWith at h
-  cases hc : checkRefs refs with
+  cases hc : checkRefs tbl refs with
   | error e =>
     rw [hc] at h
     simp only [Prod.mk.injEq] at h
     obtain ⟨rfl, rfl⟩ := h
-    obtain ⟨k, rfl⟩ := checkRefs_error refs e hc
+    obtain ⟨k, rfl⟩ := checkRefs_error tbl refs e hc
     refine ⟨hst.toW, ErrFacts.syntax fm _, by simp, ?_, by intro h; cases h⟩
     intro hp
-    have := checkRefs_of_valid refs (fun r hr => (hp name refs hrefs r hr).2.1)
+    have := checkRefs_of_valid tbl refs (fun r hr => (hp name refs hrefs r hr).2.1)
     rw [this] at hc; cases hc
   | ok u =>
     cases u
     rw [hc] at h
     simp only at h
-    exact expandWith_post hpnf rfl refs st (checkRefs_ok refs hc)
+    exact expandWith_post hpnf rfl refs st (checkRefs_ok htbl refs hc)
       (fun r hr => ⟨refs, hrefs, hr⟩) hst st' res h
 
-theorem parseNodeFile_post (hP : ∀ parent n r, P parent → validTemplatePath n = .ok true →
+theorem parseNodeFile_post (htbl : Guarded tbl) (hP : ∀ parent n r, P parent → validTemplatePath n = .ok true →
       rooted parent n = .ok r → P r) :
     ∀ (fuel : Nat) (paths : List Bytes) (parent : Bytes), paths.head? = some parent →
       PathsOK fm P paths → fm.length + 1 ≤ fuel + paths.length →
-      PnfSpec fm P paths parent (parseNodeFile fm fuel paths) := by
+      PnfSpec fm P paths parent (parseNodeFile tbl fm fuel paths) := by
   intro fuel
   induction fuel with
   | zero =>
@@ -723,9 +765,9 @@ theorem parseNodeFile_post (hP : ∀ parent n r, P parent → validTemplatePath 
             have hspec := ih (name :: paths) name rfl hok' (by simp only [List.length_cons]; omega)
             have hpush : StI fm P (name :: paths) (openFile st name).trees (openFile st name).opens :=
               hst.push hPname hnp hnt
-            rcases hps : parseSourceWith (parseNodeFile fm fuel) paths (openFile st name) name refs
+            rcases hps : parseSourceWith tbl (parseNodeFile tbl fm fuel) paths (openFile st name) name refs
               with ⟨s1, r1⟩
-            have ep := parseSourceWith_post hf hspec hpush hps
+            have ep := parseSourceWith_post htbl hf hspec hpush hps
             rw [hps] at h
             cases r1 with
             | error e =>
@@ -857,10 +899,10 @@ theorem StI.init (fm : FileMap) (P : Bytes → Prop) : StI fm P [] [] [] :=
   ⟨by intro n hn; simp at hn, by intro n hn; simp at hn, by intro n _; simp, trivial,
     by intro x hx; simp at hx, by intro _ x hx; simp at hx⟩
 
-theorem parseTemplateFuel_post {fm : FileMap} {P : Bytes → Prop}
+theorem parseTemplateFuel_post {fm : FileMap} {P : Bytes → Prop} {tbl : SiteTable} (htbl : Guarded tbl)
     (hP : ∀ parent n r, P parent → validTemplatePath n = .ok true → rooted parent n = .ok r → P r)
     (root : Bytes) (hroot : P root) (fuel : Nat) (hfuel : fm.length ≤ fuel)
-    (st' : St) (res : Except Err Unit) (h : parseTemplateFuel fm fuel root = (st', res)) :
+    (st' : St) (res : Except Err Unit) (h : parseTemplateFuel tbl fm fuel root = (st', res)) :
     RunPost fm P root st' res := by
   unfold parseTemplateFuel at h
   split at h
@@ -885,10 +927,10 @@ theorem parseTemplateFuel_post {fm : FileMap} {P : Bytes → Prop}
       have hok : PathsOK fm P [root] :=
         ⟨by intro x hx; simp at hx; subst hx; exact hroot,
          by intro x hx; simp at hx; subst hx; exact hkey, by simp, trivial⟩
-      have hspec := parseNodeFile_post hP fuel [root] root rfl hok (by simp; omega)
+      have hspec := parseNodeFile_post htbl hP fuel [root] root rfl hok (by simp; omega)
       have hpush : StI fm P [root] (openFile St.init root).trees (openFile St.init root).opens :=
         (StI.init fm P).push hroot (by simp) (by simp [tkeys])
-      have ep := parseSourceWith_post hf hspec hpush h
+      have ep := parseSourceWith_post htbl hf hspec hpush h
       refine ⟨ep.weak, ep.errs.noFuel, ep.errs.noFault, ep.errs.cyc,
         fun hp => Or.inl (ep.pure hp), fun hi => absurd hi ep.errs.noInvalid,
         fun hn => absurd hn ep.noNotExist, ?_⟩
